@@ -44,6 +44,12 @@ ConvClauses(e) ==
      \cup (IF e.nearest /\ \E y \in TestSet(c, {e.test[n] : n \in 1..Len(e.test)}) :
                               DotI(g, y, Len(last)) * e.den > e.vtol
            THEN {"NearestVariational"} ELSE {})
+     \* larger lattices: candidate test vectors handed over by the harness (integers), the feasible ones are used
+     \cup (IF e.nearest /\ Has(e, "tests")
+              /\ \E k \in 1..Len(e.tests) :
+                    /\ FamiliesOK(c, Unflat(c, [n \in 1..NumV(c) |-> R(e.tests[k][n])]), Zero)
+                    /\ DotI(g, e.tests[k], Len(last)) * e.den > e.vtol
+           THEN {"NearestVariational"} ELSE {})
      \cup (IF e.nearest /\ Has(e, "strictw") /\ ~NearInts(e.strictw, last, e.stol) THEN {"StrictStaysClose"} ELSE {})
 
 \* PWL: monotonicity + bounds; the feasible set is a polyhedron, general variational inequality
